@@ -3,26 +3,36 @@ import vlib
 class P(vlib.Prop):
     id = "C20"
     watch = ("pkg/apk/apk/transport.go",)
-    rule = ("scripted stage: hand-picked corners, then every single-fault and a grid of double-fault scripts over a 13-byte body "
-            "x 3 server kinds x 3 buffer sizes, then random scripts (body reads with chosen chunk sizes, failures, eager EOF; connection "
-            "outcomes serve/dial-error/503) run against the real rangeRetryReader through a scripted http.RoundTripper; "
-            "http stage: APK.FetchPackage against a real HTTP server that resets connections after scripted byte counts. "
+    rule = ("scripted stage: hand-picked corners (cuts at 0 / mid-read / after the last byte, three failures in one Read, resets that fail, "
+            "eager EOF, restarts cut while discarding, the 416 corner, close-delimited responses closed early, error responses without a body, "
+            "two faults in one Read survived), then every single-fault and a grid of double-fault scripts over a 13-byte body x 3 server kinds x 3 "
+            "buffer sizes, then random scripts (body reads with chosen chunk sizes, failures, eager EOF; connection outcomes serve / dial error / 503 / "
+            "backend of another kind / close-delimited response closed cleanly after n bytes; one third leaning towards the hypotheses of c20_live) run "
+            "against the real rangeRetryReader through a scripted http.RoundTripper, judged as the callers do (status 200 required); "
+            "http stage: APK.FetchPackage against a real HTTP server (Content-Length / chunked / close-delimited responses) that resets or cleanly "
+            "closes connections after scripted byte counts, incl. after the last byte of a chunked body. "
             "A case is non-trivial when its script contains at least one fault; distinct = distinct case terms.")
     stages = (
         dict(name="scripted", cmd="c20", args=lambda t, s: ["-stage", "scripted"]),
         dict(name="http", cmd="c20", args=lambda t, s: ["-stage", "http"]),
     )
     assumptions = (
-        "the server announces its length, so a cut connection surfaces as a non-EOF error (HTTP framing is not modelled)",
-        "a server of kind HonoursRange answers 206 from the requested offset and 416 at/after the end; IgnoresRange answers 200 with the full body; RejectsRange answers a non-2xx status",
-        "io.CopyN/io.Discard semantics (8192-byte buffer, 'written == n' wins over an error) are modelled by hand and checked by the correspondence",
+        "c20_faithful: every response is framed (Content-Length or chunked), so that net/http reports an early end of the connection as a non-EOF error; "
+        "without framing the statement is refuted (c20_short_body_unframed_refuted, finding C20-F1) and only c20_prefix_any_framing holds",
+        "a server of kind HonoursRange answers 206 from the requested offset and 416 at/after the end; IgnoresRange answers 200 with the full body; RejectsRange answers a non-2xx status; "
+        "error responses either all carry a body or none does (bare)",
+        "io.CopyN/io.Discard semantics (8192-byte buffer, 'written == n' wins over an error) and net/http's http.NoBody for Content-Length: 0 are modelled by hand and checked by the correspondence",
     )
-    level_text = ("Theorems c20_faithful / c20_resume_exact / c20_exhausted_is_error hold for every server content and kind, every script of body-read and "
-                  "connection outcomes and every sequence of Read calls (unbounded), about an executable model of rangeRetryReader whose retry schedule is "
-                  "regenerated from transport.go on every run; the model is tied to the code by per-Read differential comparison under a scripted transport, and the "
-                  "verified validator (c20_validator_decides) is run on what the real reader and the real FetchPackage deliver.")
-    level_note = ("trusted: Coq kernel, goextract, Go harness/printer; modelled not verified: Go text of reset/Read, net/http framing (server announces its length), io.CopyN semantics; "
-                  "correspondence is differential testing, not proof")
+    level_text = ("Safety: c20_faithful (framed responses: after every Read the bytes handed over are a prefix of the server's, EOF only when complete), c20_prefix_any_framing "
+                  "(no framing assumed: never duplicated, skipped or altered), c20_resume_exact, c20_exhausted_is_error hold for every server content and kind, every script of "
+                  "body-read and connection outcomes and every sequence of Read calls (unbounded). Completion: c20_live - every script accepted by the decidable accounting "
+                  "`tolerated` (per Read at most as many failing body reads as the schedule has retries, each followed by a re-connection that succeeds) ends with all bytes "
+                  "handed over, EOF and no error; the excluded corners are proved real (c20_live_416_corner_refuted, c20_live_restart_cut_refuted). Refuted: a short body is "
+                  "never EOF without framing (c20_short_body_unframed_refuted = finding C20-F1). All about an executable model of rangeRetryReader whose retry schedule is "
+                  "regenerated from transport.go on every run; the model is tied to the code by per-Read differential comparison under a scripted transport, and the verified "
+                  "validators (c20_validator_decides: Faithful, Complete) are run on what the real reader and the real FetchPackage deliver.")
+    level_note = ("trusted: Coq kernel, goextract, Go harness/printer; modelled not verified: Go text of reset/Read, net/http framing (which early ends are errors), http.NoBody, io.CopyN semantics; "
+                  "correspondence is differential testing, not proof; `tolerated` is stricter than the reader in one spot (a failing read that arrives with the last byte to discard is swallowed by io.CopyN)")
     design_ref = "DESIGN.md 7 C20"
     modelled_not_verified = ("rangeRetryReader.reset/Read are modelled by hand (Model/Transport.v); the retry schedule literal is regenerated "
                              "from transport.go; net/http, the TCP stack and retryablehttp are exercised by the http stage only")
